@@ -16,7 +16,8 @@ Inductive ckind :=
 | KCrash       (* panic outside the handler goroutine: the process dies *)
 | KUnmodelled.
 
-Record client := mkClient { cl_kind : ckind; cl_status : Z; cl_hdrs : hdrs; cl_body : str }.
+Record client := mkClient { cl_kind : ckind; cl_status : Z; cl_hdrs : hdrs; cl_body : str;
+                            cl_aborted : bool (* the response was cut short of its declared length *) }.
 
 Definition preprocess_headers (h : hdrs) (ov : list (str * option str)) : hdrs :=
   fold_left (fun h kv => match snd kv with
@@ -26,12 +27,12 @@ Definition preprocess_headers (h : hdrs) (ov : list (str * option str)) : hdrs :
 
 Definition write_error (e : route_err) : client :=
   match e with
-  | E404 => mkClient KErrorJson 404 [] []
-  | E407 => mkClient KErrorJson 407 [] []
-  | E502 => mkClient KErrorJson 502 [] []
-  | E500 => mkClient KBare 500 [] []
-  | EPanic => mkClient KCrash 0 [] []
-  | EOutOfFuel => mkClient KUnmodelled 0 [] []
+  | E404 => mkClient KErrorJson 404 [] [] false
+  | E407 => mkClient KErrorJson 407 [] [] false
+  | E502 => mkClient KErrorJson 502 [] [] false
+  | E500 => mkClient KBare 500 [] [] false
+  | EPanic => mkClient KCrash 0 [] [] false
+  | EOutOfFuel => mkClient KUnmodelled 0 [] [] false
   end.
 
 (* alwaysInclude.Set over the rule's response_headers, then the cache status *)
@@ -66,13 +67,13 @@ Definition serve_nocache (fuel : nat) (c : cfg) (rs : list rule) (q : req) (sc :
     | inl ok =>
       match ro_redirect ok, rf_rule with
       | Some _, Some r =>
-        if r_restart r then mkServeOut (mkClient KUnmodelled 0 [] []) (rt_log out)
+        if r_restart r then mkServeOut (mkClient KUnmodelled 0 [] [] false) (rt_log out)
         else mkServeOut (mkClient KOrigin (rs_status (ro_resp ok))
                            (clear_and_copy (rs_hdrs (ro_resp ok)) (always_include (ro_rule ok) s_pass))
-                           (rs_body (ro_resp ok))) (rt_log out)
+                           (rs_body (ro_resp ok)) false) (rt_log out)
       | _, _ =>
         mkServeOut (mkClient KOrigin (rs_status (ro_resp ok))
                       (clear_and_copy (rs_hdrs (ro_resp ok)) (always_include (ro_rule ok) s_pass))
-                      (rs_body (ro_resp ok))) (rt_log out)
+                      (rs_body (ro_resp ok)) false) (rt_log out)
       end
     end.
